@@ -12,6 +12,7 @@
 #include <asl/Matrix3.h>
 #include <asl/Matrix4.h>
 #include <asl/Quaternion.h>
+#include <asl/Complex.h>
 #include "vrec.h"
 #include <vector>
 
@@ -98,7 +99,7 @@ int main(int argc, char** argv)
 	log.line("{\"e\":\"reset\",\"p\":32749}");
 	for (long ev = 1; ev < args.events; ev++)
 	{
-		int r = rng.below(100);
+		int r = rng.below(130);
 		Zp::key = 1 + rng.below(Zp::P - 1);
 		Zp::divzero = false;
 		if (r < 14)
@@ -170,6 +171,79 @@ int main(int argc, char** argv)
 			Matrix_<Zp> X = solve(A, B);
 			log.line("{\"e\":\"lsq\"," + kv("m", m) + "," + kv("n", n) + "," + kv("c", c) + "," + kv("key", Zp::key) + ",\"a\":" + arr(a) + ",\"b\":" + arr(b) +
 			         ",\"x\":" + arr(flat(X, X.rows(), X.cols())) + "," + kv("xr", X.rows()) + "," + kv("dz", Zp::divzero ? 1 : 0) + "}");
+		}
+		else if (r >= 100)
+		{
+			// growth (spec/LinAlgGeom.tla through Trace_LinAlg): vectors, affine transforms, Complex, general quaternions
+			int style = rng.below(3);
+			std::vector<int> x((size_t)40);
+			for (size_t i = 0; i < x.size(); i++) x[i] = style == 0 ? rng.below(Zp::P) : style == 1 ? rng.below(3) : (rng.chance(40) ? 0 : rng.below(Zp::P));
+			if (r < 108)
+			{
+				Vec3_<Zp> a(Zp::raw(x[0]), Zp::raw(x[1]), Zp::raw(x[2])), b(Zp::raw(x[3]), Zp::raw(x[4]), Zp::raw(x[5])), d(Zp::raw(x[6]), Zp::raw(x[7]), Zp::raw(x[8]));
+				Vec4_<Zp> a4(Zp::raw(x[9]), Zp::raw(x[10]), Zp::raw(x[11]), Zp::raw(x[12])), b4 = a4;
+				int same = rng.below(5); // the two Vec4 share their first `same` components
+				if (same < 1) b4.x = Zp::raw(x[13]);
+				if (same < 2) b4.y = Zp::raw(x[14]);
+				if (same < 3) b4.z = Zp::raw(x[15]);
+				if (same < 4) b4.w = Zp::raw(x[16]);
+				Vec3_<Zp> cr = a ^ b, h = a4.h2c();
+				Matrix3_<Zp> m(a.x, a.y, a.z, b.x, b.y, b.z, d.x, d.y, d.z);
+				char buf[700];
+				snprintf(buf, sizeof buf, "{\"e\":\"vec\",\"a\":[%d,%d,%d],\"b\":[%d,%d,%d],\"c\":[%d,%d,%d],\"cross\":[%d,%d,%d],\"dot\":%d,\"triple\":%d,\"det\":%d,"
+				         "\"a4\":[%d,%d,%d,%d],\"b4\":[%d,%d,%d,%d],\"cmp4\":%d,\"eq4\":%d,\"h2c\":[%d,%d,%d],\"dz\":%d}",
+				         a.x.v, a.y.v, a.z.v, b.x.v, b.y.v, b.z.v, d.x.v, d.y.v, d.z.v, cr.x.v, cr.y.v, cr.z.v, (a * b).v, (a * (b ^ d)).v, m.det().v,
+				         a4.x.v, a4.y.v, a4.z.v, a4.w.v, b4.x.v, b4.y.v, b4.z.v, b4.w.v, compare(a4, b4), a4 == b4 ? 1 : 0, h.x.v, h.y.v, h.z.v, Zp::divzero ? 1 : 0);
+				log.line(buf);
+			}
+			else if (r < 118)
+			{
+				std::vector<int> l(x.begin(), x.begin() + 9), t(x.begin() + 9, x.begin() + 12), l2(x.begin() + 12, x.begin() + 21), t2(x.begin() + 21, x.begin() + 24),
+				                 p(x.begin() + 24, x.begin() + 27);
+				if (rng.chance(15)) for (int j = 0; j < 3; j++) l[(size_t)(6 + j)] = l[(size_t)j]; // singular linear part
+				Matrix4_<Zp> G(Zp::raw(l[0]), Zp::raw(l[1]), Zp::raw(l[2]), Zp::raw(t[0]), Zp::raw(l[3]), Zp::raw(l[4]), Zp::raw(l[5]), Zp::raw(t[1]), Zp::raw(l[6]), Zp::raw(l[7]),
+				               Zp::raw(l[8]), Zp::raw(t[2]));
+				Matrix4_<Zp> G2(Zp::raw(l2[0]), Zp::raw(l2[1]), Zp::raw(l2[2]), Zp::raw(t2[0]), Zp::raw(l2[3]), Zp::raw(l2[4]), Zp::raw(l2[5]), Zp::raw(t2[1]), Zp::raw(l2[6]),
+				                Zp::raw(l2[7]), Zp::raw(l2[8]), Zp::raw(t2[2]));
+				Vec3_<Zp> pv(Zp::raw(p[0]), Zp::raw(p[1]), Zp::raw(p[2]));
+				Vec3_<Zp> gp = G * pv, gd = G % pv, comp = G * (G2 * pv), viaProd = (G * G2) * pv;
+				int det = G.det().v;
+				Zp::divzero = false;
+				Matrix4_<Zp> inv = G.inverse();
+				Vec3_<Zp> back = inv * gp;
+				char buf[300];
+				snprintf(buf, sizeof buf, ",\"gp\":[%d,%d,%d],\"gd\":[%d,%d,%d],\"comp\":[%d,%d,%d],\"viaprod\":[%d,%d,%d],\"back\":[%d,%d,%d],\"det\":%d,\"dz\":%d}", gp.x.v, gp.y.v,
+				         gp.z.v, gd.x.v, gd.y.v, gd.z.v, comp.x.v, comp.y.v, comp.z.v, viaProd.x.v, viaProd.y.v, viaProd.z.v, back.x.v, back.y.v, back.z.v, det, Zp::divzero ? 1 : 0);
+				log.line("{\"e\":\"aff\",\"l\":" + arr(l) + ",\"t\":" + arr(t) + ",\"l2\":" + arr(l2) + ",\"t2\":" + arr(t2) + ",\"p\":" + arr(p) + ",\"g\":" + arr(flat(G, 4, 4)) +
+				         ",\"prod\":" + arr(flat(G * G2, 4, 4)) + ",\"inv\":" + arr(flat(inv, 4, 4)) + buf);
+			}
+			else if (r < 124)
+			{
+				Complex<Zp> z(Zp::raw(x[0]), Zp::raw(x[1])), y(Zp::raw(x[2]), Zp::raw(x[3]));
+				Complex<Zp> prd = z * y, sum = z + y, cj = ~z;
+				int mag2 = z.magnitude2().v;
+				Zp::divzero = false;
+				Complex<Zp> quo = z / y;
+				char buf[400];
+				snprintf(buf, sizeof buf, "{\"e\":\"cplx\",\"z\":[%d,%d],\"y\":[%d,%d],\"sum\":[%d,%d],\"prd\":[%d,%d],\"conj\":[%d,%d],\"mag2\":%d,\"quo\":[%d,%d],\"dz\":%d}", z.r.v, z.i.v,
+				         y.r.v, y.i.v, sum.r.v, sum.i.v, prd.r.v, prd.i.v, cj.r.v, cj.i.v, mag2, quo.r.v, quo.i.v, Zp::divzero ? 1 : 0);
+				log.line(buf);
+			}
+			else
+			{
+				Quaternion_<Zp> q1(Zp::raw(x[0]), Zp::raw(x[1]), Zp::raw(x[2]), Zp::raw(x[3])), q2(Zp::raw(x[4]), Zp::raw(x[5]), Zp::raw(x[6]), Zp::raw(x[7])),
+				    q3(Zp::raw(x[8]), Zp::raw(x[9]), Zp::raw(x[10]), Zp::raw(x[11]));
+				Quaternion_<Zp> p12 = q1 ^ q2, lft = (q1 ^ q2) ^ q3, rgt = q1 ^ (q2 ^ q3), cj = q1.conj();
+				int n1 = q1.length2().v;
+				Zp::divzero = false;
+				Quaternion_<Zp> inv = q1.inverse();
+				char buf[600];
+				snprintf(buf, sizeof buf, "{\"e\":\"qalg\",\"q1\":[%d,%d,%d,%d],\"q2\":[%d,%d,%d,%d],\"q3\":[%d,%d,%d,%d],\"p12\":[%d,%d,%d,%d],\"lft\":[%d,%d,%d,%d],\"rgt\":[%d,%d,%d,%d],"
+				         "\"conj\":[%d,%d,%d,%d],\"n1\":%d,\"inv\":[%d,%d,%d,%d],\"dz\":%d}",
+				         q1.w.v, q1.x.v, q1.y.v, q1.z.v, q2.w.v, q2.x.v, q2.y.v, q2.z.v, q3.w.v, q3.x.v, q3.y.v, q3.z.v, p12.w.v, p12.x.v, p12.y.v, p12.z.v, lft.w.v, lft.x.v, lft.y.v,
+				         lft.z.v, rgt.w.v, rgt.x.v, rgt.y.v, rgt.z.v, cj.w.v, cj.x.v, cj.y.v, cj.z.v, n1, inv.w.v, inv.x.v, inv.y.v, inv.z.v, Zp::divzero ? 1 : 0);
+				log.line(buf);
+			}
 		}
 		else
 		{
